@@ -775,7 +775,7 @@ Proof.
   - exfalso. assert (X : exists d', recv_all bshape dst objs = ROk d') by eauto.
     destruct (accept_iff bshape _ _ _ _ _ _ P Hs) as [A1 _]. rewrite (A1 X b Hn) in Hb. discriminate.
   - pose proof (split_independent bshape size _ dst _ _ _ _ Hs max) as T. rewrite E in T.
-    apply tstate_err in T. destruct T as [ps T]. exists d_err, ps. repeat split; auto.
+    apply tstate_err in T. destruct T as [ps T]. exists d_err, ps. split; [auto|]. split; [auto|]. split; [|split].
     + pose proof (closed_recv_all bshape dst objs (pre_dst_closed _ _ _ _ _ _ P)) as C. rewrite E in C. auto.
     + pose proof (tableswf_recv_all bshape dst objs (pre_dst_wf _ _ _ _ _ _ P)) as C. rewrite E in C. auto.
     + pose proof (recv_all_ext bshape dst objs) as C. rewrite E in C. auto.
@@ -792,7 +792,7 @@ Theorem shallow_accept src dst to_send tbs commons objs max :
 Proof.
   intros P Hs H. destruct (accept_iff bshape _ _ _ _ _ _ P Hs) as [_ A2]. destruct (A2 H) as [d' E].
   pose proof (split_independent bshape size _ dst _ _ _ _ Hs max) as T. rewrite E in T.
-  apply tstate_done in T. destruct T as [ps T]. exists d', ps. repeat split; auto.
+  apply tstate_done in T. destruct T as [ps T]. exists d', ps. split; [auto|]. split; [auto|]. split; [|split].
   - pose proof (closed_recv_all bshape dst objs (pre_dst_closed _ _ _ _ _ _ P)) as C. rewrite E in C. auto.
   - pose proof (tableswf_recv_all bshape dst objs (pre_dst_wf _ _ _ _ _ _ P)) as C. rewrite E in C. auto.
   - pose proof (recv_all_ext bshape dst objs) as C. rewrite E in C. auto.
@@ -863,7 +863,6 @@ Proof.
   - intros pre c cc post E p Hp. destruct pre as [|a [|b [|x pre]]]; simpl in E; inversion E; subst.
     + destruct Hp.
     + destruct Hp as [Hp|[]]; subst. left; simpl; auto.
-    + destruct pre; discriminate.
   - intros c cc H; discriminate.
   - intros t tc H; discriminate.
   - repeat split; intros k x y _ H; discriminate.
